@@ -1,5 +1,5 @@
 \* One scope, indexes <= 4, terms <= 2.  21,230 distinct states, 2,564,545 generated; 69 s with 8 workers
-\* on an idle machine.  (terms <= 3: 68,888 distinct / 12.7 M generated, about 43 CPU-minutes: too slow
+\* on an idle machine (with SaveFails: 21,230 distinct, 2,517,151 generated).  (terms <= 3: 68,888 distinct / 12.7 M generated, about 43 CPU-minutes: too slow
 \* for the tier; terms <= 3 with two voter sets: 108,552 distinct / 25.2 M generated.)
 SPECIFICATION Spec
 CONSTANTS
